@@ -11,6 +11,7 @@ pub mod c01;
 pub mod c02;
 pub mod c04;
 pub mod c05;
+pub mod c06;
 pub mod c10;
 pub mod c11;
 pub mod c12;
@@ -18,10 +19,11 @@ pub mod c13;
 pub mod c14;
 pub mod c15;
 pub mod c16;
+pub mod c38;
 pub mod c40;
 
 pub fn all() -> Vec<PropDef> {
-    vec![c01::def(), c02::def(), c04::def(), c05::def(), c10::def(), c11::def(), c12::def(), c13::def(), c14::def(), c15::def(), c15::def_c17(), c16::def(), c16::def_c39(), c40::def()]
+    vec![c01::def(), c02::def(), c04::def(), c05::def(), c10::def(), c11::def(), c12::def(), c13::def(), c14::def(), c15::def(), c15::def_c17(), c16::def(), c16::def_c39(), c40::def(), c38::def(), c06::def()]
 }
 
 pub fn find(id: &str) -> Option<PropDef> {
